@@ -10,7 +10,7 @@ GEN = ["icap_consts"]
 RULE = ("scenario = REQMOD/RESPMOD x service (preview none/0/5/100/4096, bypass, 206) x virgin body (none / known / unknown length, sizes around the "
         "preview size and the 64 KB backup limit) x how much of it squid holds when the ICAP stub acts x when the stub acts (after the heads, after the "
         "preview, after 100 Continue + body) x what it does (204, 200 with/without body, request satisfaction, 206 use-original-body, error status, "
-        "garbage, close, reset, stray 100) x where its reply is cut (ICAP head, adapted head, every region of the chunked body) x close/reset; "
+        "garbage, close, reset, replies without an HTTP head) x where its reply is cut (ICAP head, adapted head, every region of the chunked body) x close/reset; "
         "non-trivial = the ICAP transaction was started and the recipient's observation could be judged; distinct = distinct scenario lines")
 TRUSTED = ["modelled, not verified: Comm I/O and AsyncCall scheduling, the HTTP/ICAP head parsers and the chunked decoder (C23-C26), the store/client-side "
            "delivery of the adapted body, ServiceRep (OPTIONS, suspension), retries on persistent connections (icap_persistent_connections off in the rig)",
